@@ -87,8 +87,6 @@ J run_plan(const J &plan, int verbose, const char *trace_path)
 
 // ------------------------------------------------------------------ child management
 extern "C" void __sanitizer_set_report_path(const char *) __attribute__((weak));
-struct Shared { volatile int cur_task; volatile int phase; volatile unsigned long long events; char cur_name[32]; };
-static Shared *g_shared;
 
 static std::string read_file(const std::string &p) { std::ifstream f(p); std::stringstream ss; ss << f.rdbuf(); return ss.str(); }
 
@@ -99,6 +97,8 @@ static std::string run_child(const J &plan, int verbose, const char *trace_path,
 	if (pipe(pfd)) return "{\"error\":\"pipe\"}";
 	fflush(stdout); fflush(stderr);
 	char logbase[256]; snprintf(logbase, sizeof logbase, "%s/san.%d.%ld", sanlog_dir.c_str(), (int)getpid(), (long)plan.geti("seed"));
+	if (!g_curtask_shm) g_curtask_shm = (char *)mmap(nullptr, 4096, PROT_READ | PROT_WRITE, MAP_SHARED | MAP_ANONYMOUS, -1, 0);
+	g_curtask_shm[0] = 0;
 	pid_t pid = fork();
 	if (pid == 0) {
 		close(pfd[0]);
@@ -142,6 +142,7 @@ static std::string run_child(const J &plan, int verbose, const char *trace_path,
 	bool san = WIFEXITED(st) && WEXITSTATUS(st) == 77;
 	if (san) kind = "sanitizer";
 	r.set("crash", kind);
+	r.set("task", std::string(g_curtask_shm));
 	// sanitizer log
 	std::string log;
 	{
